@@ -390,7 +390,10 @@ func (ex *Exec) forkValues(st *State, t *Term, max int) []*State {
 			break
 		}
 		if r == Unknown {
-			panic(abort{"unknown", "solver unknown while enumerating values of " + t.String()})
+			st.status = Aborted
+			st.abortK = "unknown"
+			st.abortM = "solver unknown while enumerating values of " + t.String() + st.where()
+			return []*State{st}
 		}
 		v := m[t.ID].Uint64()
 		vals = append(vals, v)
